@@ -14,8 +14,9 @@ use verif_harness::*;
 
 const LANGS: [Language; 14] = [Language::C, Language::Cxx, Language::GenericHeader, Language::CHeader, Language::CxxHeader, Language::ObjectiveC,
     Language::ObjectiveCxx, Language::ObjectiveCxxHeader, Language::Cuda, Language::CudaFE, Language::Ptx, Language::Cubin, Language::Rust, Language::Hip];
-const C_ENV: [&str; 7] = ["SCCACHE_C_CUSTOM_CACHE_BUSTER", "MACOSX_DEPLOYMENT_TARGET", "IPHONEOS_DEPLOYMENT_TARGET", "TVOS_DEPLOYMENT_TARGET", "WATCHOS_DEPLOYMENT_TARGET", "SDKROOT", "CCC_OVERRIDE_OPTIONS"];
-const P_ENV: [&str; 6] = ["SCCACHE_C_CUSTOM_CACHE_BUSTER", "CPATH", "C_INCLUDE_PATH", "CPLUS_INCLUDE_PATH", "OBJC_INCLUDE_PATH", "OBJCPLUS_INCLUDE_PATH"];
+// the variables the statement calls "hashed": what must change a key (kept by hand: the oracle of the monitor is independent of the translator)
+const C_ENV: [&str; 11] = ["SCCACHE_C_CUSTOM_CACHE_BUSTER", "MACOSX_DEPLOYMENT_TARGET", "IPHONEOS_DEPLOYMENT_TARGET", "TVOS_DEPLOYMENT_TARGET", "WATCHOS_DEPLOYMENT_TARGET", "SDKROOT", "CCC_OVERRIDE_OPTIONS", "LANG", "LC_ALL", "LC_CTYPE", "LC_MESSAGES"];
+const P_ENV: [&str; 16] = ["SCCACHE_C_CUSTOM_CACHE_BUSTER", "CPATH", "C_INCLUDE_PATH", "CPLUS_INCLUDE_PATH", "OBJC_INCLUDE_PATH", "OBJCPLUS_INCLUDE_PATH", "MACOSX_DEPLOYMENT_TARGET", "IPHONEOS_DEPLOYMENT_TARGET", "TVOS_DEPLOYMENT_TARGET", "WATCHOS_DEPLOYMENT_TARGET", "SDKROOT", "CCC_OVERRIDE_OPTIONS", "LANG", "LC_ALL", "LC_CTYPE", "LC_MESSAGES"];
 
 #[derive(Clone, Debug, PartialEq)]
 struct Req { pre: bool, ign: bool, digest: String, plusplus: bool, lang: usize, args: Vec<Vec<u8>>, extra: Vec<String>, env: Vec<(Vec<u8>, Vec<u8>)>,
